@@ -57,6 +57,13 @@ func Load(c *core.Case) *World {
 		if !strings.HasSuffix(name, ".go") || strings.HasSuffix(name, "_test.go") {
 			continue
 		}
+		// what the go command does not consider part of a package of this module
+		if strings.Contains("/"+name, "/testdata/") || strings.HasPrefix(c.Files[name], "//go:build ignore\n") {
+			continue
+		}
+		if nestedModule(c, name) {
+			continue
+		}
 		ip := w.importPathOfFile(name)
 		if ip == "" {
 			continue
@@ -266,4 +273,14 @@ func (d *Dest) ErrStrings(max int) []string {
 		s = append(s, fmt.Sprintf("%s:%d:%d: %s", pos.Filename, pos.Line, pos.Column, e.Msg))
 	}
 	return s
+}
+
+// nestedModule reports whether a directory above the file (below the world root) has a go.mod of its own.
+func nestedModule(c *core.Case, name string) bool {
+	for d := path.Dir(name); d != "." && d != "/"; d = path.Dir(d) {
+		if _, ok := c.Files[d+"/go.mod"]; ok {
+			return true
+		}
+	}
+	return false
 }
